@@ -54,12 +54,68 @@ def snapshot(repo):
     return out
 
 
+def snapshot_types(repo):
+    """struct name -> module + field signature (names and types with the struct's own name blanked), for private-type renames"""
+    out = {}
+    for q, s in repo.structs.items():
+        nm = s["name"]
+        sig = [(f.get("name") or "", re.sub(r"\b%s\b" % re.escape(nm), "Self", _ty(f.get("ty")))) for f in s.get("fields", [])]
+        out[q] = {"module": s["_module"], "name": nm, "fields": sig}
+    return out
+
+
+def compute_type_renames(repo, types):
+    """a recorded struct that is missing = the unrecorded struct of the same module with the same field names and types"""
+    cur = snapshot_types(repo)
+    known = {t["name"] for t in types.values()}
+    out = {}
+    for strict in (True, False):
+        for q, t in types.items():
+            if q in cur or t["name"] in out.values() or not t["fields"]:
+                continue
+            # field types are compared with the renames found so far mapped back (a renamed type may mention another renamed type);
+            # second pass: field names alone, when that still singles out one struct
+            def sig(x):
+                fs = []
+                for f in x["fields"]:
+                    ty = f[1]
+                    for new, old in out.items():
+                        ty = re.sub(r"\b%s\b" % re.escape(new), old, ty)
+                    fs.append((f[0], ty) if strict else (f[0],))
+                return fs
+            want = [(f[0], f[1]) if strict else (f[0],) for f in t["fields"]]
+            c = [x for k, x in cur.items() if k not in types and x["module"] == t["module"] and x["name"] not in known and x["name"] not in out and sig(x) == want]
+            if len(c) == 1:
+                out[c[0]["name"]] = t["name"]
+    return out
+
+
+def apply_type_renames(data, renames):
+    if not renames:
+        return
+    rx = re.compile(r"(?<![A-Za-z0-9_])(" + "|".join(sorted(map(re.escape, renames), key=len, reverse=True)) + r")(?![A-Za-z0-9_])")
+    sub = lambda s: rx.sub(lambda m: renames[m.group(1)], s)
+    stack = [data]
+    while stack:
+        x = stack.pop()
+        if isinstance(x, dict):
+            for key in ("ty", "self_ty", "ret", "path", "trait", "generics"):
+                if isinstance(x.get(key), str) and x[key]:
+                    x[key] = sub(x[key])
+            if x.get("k") in ("StructDef", "EnumDef", "TypeAlias") and x.get("name") in renames:
+                x["name"] = renames[x["name"]]
+            stack.extend(v for v in x.values() if isinstance(v, (dict, list)))
+        elif isinstance(x, list):
+            stack.extend(v for v in x if isinstance(v, (dict, list)))
+
+
 def compute_renames(repo, table=None):
     """-> {new simple name: old simple name}, [(old qname, new qname, score)]"""
     if table is None:
         if not os.path.exists(TABLE):
             return {}, []
         table = json.load(open(TABLE))
+    table = {k: v for k, v in table.items() if k != "__types__"}
     cur = {q: f for q, f in repo.fns.items() if "@" not in q}
     missing = [q for q in table if q not in cur]
     fresh = [q for q in cur if q not in table]
@@ -143,3 +199,54 @@ def rename_in_path(p, renames, _cache={}):
     if key not in _cache:
         _cache[key] = re.compile(r"(?<![A-Za-z0-9_])(" + "|".join(sorted(map(re.escape, renames), key=len, reverse=True)) + r")(?![A-Za-z0-9_])")
     return _cache[key].sub(lambda m: renames[m.group(1)], p)
+
+
+# ---- desugaring: `it.for_each(|p| body);` and `it.try_for_each(|p| body)?;` read as `for p in it { body }` ----------------------
+def _has_return(n):
+    for x in A.walk(n):
+        if x["k"] == "Return":
+            return True
+    return False
+
+
+def _as_block(e):
+    if e["k"] == "Block":
+        return e
+    return {"k": "Block", "l": e["l"], "c": e["c"], "el": e["el"], "ec": e["ec"], "stmts": [{"k": "ExprStmt", "expr": e, "semi": True, "l": e["l"], "c": e["c"], "el": e["el"], "ec": e["ec"]}]}
+
+
+def desugar_loops(data):
+    """In place: a statement `recv.for_each(|pat| body);` becomes `for pat in recv { body; }`; `recv.try_for_each(|pat| body)?;`
+    becomes `for pat in recv { (body)?; }` (the first error leaves the function, as the `?` on try_for_each does).  Only closures
+    with one parameter and no `return` inside are rewritten (a `return` in a closure is a `continue` of the loop, not a return).
+    The rules then see one idiom for `do this for every element`."""
+    n = 0
+    stack = [data]
+    while stack:
+        x = stack.pop()
+        if isinstance(x, dict):
+            if x.get("k") == "ExprStmt" and isinstance(x.get("expr"), dict):
+                e = x["expr"]
+                tr = None
+                if e.get("k") == "Try" and isinstance(e.get("expr"), dict):
+                    tr, e = e, e["expr"]
+                if e.get("k") == "MethodCall" and e.get("method") == ("try_for_each" if tr else "for_each") and len(e.get("args", [])) == 1 and e["args"][0].get("k") == "Closure":
+                    clo = e["args"][0]
+                    if len(clo.get("params", [])) == 1 and not _has_return(clo["body"]):
+                        body = clo["body"]
+                        if tr:
+                            inner = {"k": "Try", "expr": body, "l": body["l"], "c": body["c"], "el": body["el"], "ec": body["ec"]}
+                            blk = {"k": "Block", "l": body["l"], "c": body["c"], "el": body["el"], "ec": body["ec"],
+                                   "stmts": [{"k": "ExprStmt", "expr": inner, "semi": True, "l": body["l"], "c": body["c"], "el": body["el"], "ec": body["ec"]}]}
+                        else:
+                            blk = _as_block(body)
+                            if blk["stmts"] and blk["stmts"][-1].get("k") == "ExprStmt":
+                                blk["stmts"][-1]["semi"] = True
+                        x["expr"] = {"k": "ForLoop", "pat": clo["params"][0], "iter": e["recv"], "body": blk, "label": None,
+                                     "l": e["l"], "c": e["c"], "el": e["el"], "ec": e["ec"]}
+                        x["semi"] = True
+                        n += 1
+            stack.extend(v for v in x.values() if isinstance(v, (dict, list)))
+        elif isinstance(x, list):
+            stack.extend(v for v in x if isinstance(v, (dict, list)))
+    return n
